@@ -11,7 +11,7 @@ from ..core import fmt_list, parse_ints, frac, err_kind
 
 ID = "C10"
 MODULES = ["TWV.Properties.C10"]
-RULE = ("exhaustive lattice: every strictly increasing array of <=4 (thorough <=6) elements over {0..4} ({0..6}) with "
+RULE = ("exhaustive lattice: every strictly increasing array of <=4 (thorough <=5) elements over {-2..2} ({-2..3}) with "
         "every sorted query multiset of <=3 (<=4) values on the half-integer lattice, all five strategy/fill variants; "
         "plus random float arrays with queries equal to, +-1ulp around, between and beyond the elements, unsorted "
         "queries (model = code, no oracle) and the error branches. Non-trivial: at least one query strictly inside the "
@@ -23,9 +23,10 @@ VARIANTS = [("closest", True), ("lower", True), ("lower", False), ("higher", Tru
 
 
 def _lattice_cases(maxlen, top, maxq):
-    qvals = [Fraction(k, 2) for k in range(-1, 2 * top + 4)]
+    lo = -(top // 2)           # the lattice straddles zero (0 is falsy in Python: a classic end-of-iteration slip)
+    qvals = [Fraction(k, 2) for k in range(2 * lo - 1, 2 * (lo + top) + 4)]
     for k in range(1, maxlen + 1):
-        for arr in itertools.combinations(range(top + 1), k):
+        for arr in itertools.combinations(range(lo, lo + top + 1), k):
             for nq in range(1, maxq + 1):
                 for qs in itertools.combinations_with_replacement(qvals, nq):
                     for (s, f) in VARIANTS:
